@@ -50,3 +50,82 @@ pub open spec fn lift_sub<C>(m: SubMsg<Empty>) -> SubMsg<C> {
 //@   ensures [C17.lift_resp.messages,C04] r.messages@.len() == resp.messages@.len() && forall|i: int| 0 <= i < resp.messages@.len() ==> #[trigger] r.messages@[i] == lift_sub::<C>(resp.messages@[i])
 //@   ensures [C17.lift_resp.rest,C04] r.events@ == resp.events@ && r.attributes@ == resp.attributes@ && r.data == resp.data
 //@ end
+
+// ------------------------------------------------------------------ contracts.rs : the closures that adapt an Empty-typed entry
+// point to the chain's custom message / query types (ContractWrapper::new_with_empty, with_sudo_empty, with_migrate_empty).
+// rule R26: a fn-pointer parameter `raw_fn: XFn<..>` is read as a generic `F: Fn(..) -> ..` (Verus has no fn-pointer
+// types); rule R27: the `Box<dyn Fn(..)>` result is read as `impl Fn(..)` and `Box::new(` .. `)` is dropped (Verus has no
+// dyn-Fn objects).  What is dropped: the boxing and the unsizing coercion; the closure text is the repository's.
+//@ fn src/contracts.rs :: decustomize_deps_mut
+//@   ret r
+//@   replace_re? "where\\s*Q: CustomQuery \\+ DeserializeOwned,\\s*" => ""
+//@   ensures [C17.decust.same_state] r.storage.view() == old(deps).storage.view() && r.querier.snap() == old(deps).querier.snap()
+//@   ensures [C17.decust.writes_through] final(deps).storage.view() == final(r.storage).view() && final(final(deps).storage).view() == final(old(deps).storage).view()
+//@ end
+//@ fn src/contracts.rs :: decustomize_deps
+//@   ret r
+//@   replace_re? "where\\s*Q: CustomQuery \\+ DeserializeOwned,\\s*" => ""
+//@   ensures [C17.decust_ro.same_state] r.storage.view() == deps.storage.view() && r.querier.snap() == deps.querier.snap()
+//@ end
+pub open spec fn no_custom(resp: Response<Empty>) -> bool {
+    forall|i: int| 0 <= i < resp.messages@.len() ==> !((#[trigger] resp.messages@[i]).msg is Custom)
+}
+// `o` is the lifted image of `o0`: errors pass through, a response is customize_response of the raw one
+pub open spec fn lifted_result<C, E>(o0: Result<Response<Empty>, E>, o: Result<Response<C>, E>) -> bool {
+    match o0 {
+        Err(e) => o == Result::<Response<C>, E>::Err(e),
+        Ok(resp) => o is Ok && {
+            let r = o->Ok_0;
+            &&& r.messages@.len() == resp.messages@.len()
+            &&& forall|i: int| 0 <= i < resp.messages@.len() ==> #[trigger] r.messages@[i] == lift_sub::<C>(resp.messages@[i])
+            &&& r.events@ == resp.events@ && r.attributes@ == resp.attributes@ && r.data == resp.data
+        },
+    }
+}
+// the customised closure ran the raw entry point exactly once, on the caller's storage and querier snapshot, with the
+// same env and message, and its writes are the caller's writes
+#[verifier::prophetic]
+pub open spec fn perm_lifted<T, C, E, Q, F: Fn(DepsMut<Empty>, Env, T) -> Result<Response<Empty>, E>>(raw_fn: F, d: DepsMut<Q>, env: Env, msg: T, o: Result<Response<C>, E>) -> bool {
+    exists|d0: DepsMut<Empty>, o0: Result<Response<Empty>, E>| d0.storage.view() == d.storage.view() && d0.querier.snap() == d.querier.snap()
+        && final(d0.storage).view() == final(d.storage).view() && #[trigger] raw_fn.ensures((d0, env, msg), o0) && lifted_result::<C, E>(o0, o)
+}
+pub open spec fn perm_ready<T, E, Q, F: Fn(DepsMut<Empty>, Env, T) -> Result<Response<Empty>, E>>(raw_fn: F, d: DepsMut<Q>, env: Env, msg: T) -> bool {
+    &&& forall|d0: DepsMut<Empty>| d0.storage.view() == d.storage.view() && d0.querier.snap() == d.querier.snap() ==> #[trigger] raw_fn.requires((d0, env, msg))
+    &&& forall|d0: DepsMut<Empty>, o0: Result<Response<Empty>, E>| #[trigger] raw_fn.ensures((d0, env, msg), o0) && o0 is Ok ==> no_custom(o0->Ok_0)
+}
+//@ fn src/contracts.rs :: customize_permissioned_fn
+//@   ret r
+//@   replace_re "fn customize_permissioned_fn<T, C, E, Q>\\(\\s*raw_fn: PermissionedFn<T, Empty, E, Empty>,\\s*\\) -> PermissionedClosure<T, C, E, Q>\\s*where[\\s\\S]*?\\{" => "fn customize_permissioned_fn<T, C, E, Q, F: Fn(DepsMut<Empty>, Env, T) -> Result<Response<Empty>, E>>(raw_fn: F) -> impl Fn(DepsMut<Q>, Env, T) -> Result<Response<C>, E> {"
+//@   replace_re "Box::new\\(\\s*(?P<B>move[\\s\\S]*\\}),\\s*\\)" => "\\g<B>"
+//@   replace_re "-> Result<Response<C>, E> \\{\\s*let deps" => "-> (o: Result<Response<C>, E>) requires perm_ready::<T, E, Q, F>(raw_fn, deps, env, msg) ensures perm_lifted::<T, C, E, Q, F>(raw_fn, deps, env, msg, o) { let deps"
+//@   ensures [C17.perm_fn.ready] forall|d: DepsMut<Q>, env: Env, msg: T| perm_ready::<T, E, Q, F>(raw_fn, d, env, msg) ==> #[trigger] r.requires((d, env, msg))
+//@   ensures [C17.perm_fn.sem,C04,C13] forall|d: DepsMut<Q>, env: Env, msg: T, o: Result<Response<C>, E>| #[trigger] r.ensures((d, env, msg), o) ==> perm_lifted::<T, C, E, Q, F>(raw_fn, d, env, msg, o)
+//@ end
+#[verifier::prophetic]
+pub open spec fn contract_lifted<T, C, E, Q, F: Fn(DepsMut<Empty>, Env, MessageInfo, T) -> Result<Response<Empty>, E>>(raw_fn: F, d: DepsMut<Q>, env: Env, info: MessageInfo, msg: T, o: Result<Response<C>, E>) -> bool {
+    exists|d0: DepsMut<Empty>, o0: Result<Response<Empty>, E>| d0.storage.view() == d.storage.view() && d0.querier.snap() == d.querier.snap()
+        && final(d0.storage).view() == final(d.storage).view() && #[trigger] raw_fn.ensures((d0, env, info, msg), o0) && lifted_result::<C, E>(o0, o)
+}
+pub open spec fn contract_ready<T, E, Q, F: Fn(DepsMut<Empty>, Env, MessageInfo, T) -> Result<Response<Empty>, E>>(raw_fn: F, d: DepsMut<Q>, env: Env, info: MessageInfo, msg: T) -> bool {
+    &&& forall|d0: DepsMut<Empty>| d0.storage.view() == d.storage.view() && d0.querier.snap() == d.querier.snap() ==> #[trigger] raw_fn.requires((d0, env, info, msg))
+    &&& forall|d0: DepsMut<Empty>, o0: Result<Response<Empty>, E>| #[trigger] raw_fn.ensures((d0, env, info, msg), o0) && o0 is Ok ==> no_custom(o0->Ok_0)
+}
+//@ fn src/contracts.rs :: customize_contract_fn
+//@   ret r
+//@   replace_re "fn customize_contract_fn<T, C, E, Q>\\(\\s*raw_fn: ContractFn<T, Empty, E, Empty>,\\s*\\) -> ContractClosure<T, C, E, Q>\\s*where[\\s\\S]*?\\{" => "fn customize_contract_fn<T, C, E, Q, F: Fn(DepsMut<Empty>, Env, MessageInfo, T) -> Result<Response<Empty>, E>>(raw_fn: F) -> impl Fn(DepsMut<Q>, Env, MessageInfo, T) -> Result<Response<C>, E> {"
+//@   replace_re "Box::new\\(\\s*(?P<B>move[\\s\\S]*\\}),\\s*\\)" => "\\g<B>"
+//@   replace_re "-> Result<Response<C>, E> \\{\\s*let deps" => "-> (o: Result<Response<C>, E>) requires contract_ready::<T, E, Q, F>(raw_fn, deps, env, info, msg) ensures contract_lifted::<T, C, E, Q, F>(raw_fn, deps, env, info, msg, o) { let deps"
+//@   ensures [C17.contract_fn.ready] forall|d: DepsMut<Q>, env: Env, info: MessageInfo, msg: T| contract_ready::<T, E, Q, F>(raw_fn, d, env, info, msg) ==> #[trigger] r.requires((d, env, info, msg))
+//@   ensures [C17.contract_fn.sem,C04,C13] forall|d: DepsMut<Q>, env: Env, info: MessageInfo, msg: T, o: Result<Response<C>, E>| #[trigger] r.ensures((d, env, info, msg), o) ==> contract_lifted::<T, C, E, Q, F>(raw_fn, d, env, info, msg, o)
+//@ end
+pub open spec fn query_lifted<T, E, Q, F: Fn(Deps<Empty>, Env, T) -> Result<Binary, E>>(raw_fn: F, d: Deps<Q>, env: Env, msg: T, o: Result<Binary, E>) -> bool {
+    exists|d0: Deps<Empty>| d0.storage.view() == d.storage.view() && d0.querier.snap() == d.querier.snap() && #[trigger] raw_fn.ensures((d0, env, msg), o)
+}
+//@ fn src/contracts.rs :: customize_query_fn
+//@   ret r
+//@   replace_re "fn customize_query_fn<T, E, Q>\\(raw_fn: QueryFn<T, E, Empty>\\) -> QueryClosure<T, E, Q>\\s*where[\\s\\S]*?\\{" => "fn customize_query_fn<T, E, Q, F: Fn(Deps<Empty>, Env, T) -> Result<Binary, E>>(raw_fn: F) -> impl Fn(Deps<Q>, Env, T) -> Result<Binary, E> {"
+//@   replace_re "Box::new\\(\\s*(?P<B>move[\\s\\S]*\\}),\\s*\\)" => "\\g<B>"
+//@   replace_re "-> Result<Binary, E> \\{\\s*let deps" => "-> (o: Result<Binary, E>) requires forall|d0: Deps<Empty>| d0.storage.view() == deps.storage.view() && d0.querier.snap() == deps.querier.snap() ==> #[trigger] raw_fn.requires((d0, env, msg)) ensures query_lifted::<T, E, Q, F>(raw_fn, deps, env, msg, o) { let deps"
+//@   ensures [C17.query_fn.ready] forall|d: Deps<Q>, env: Env, msg: T| (forall|d0: Deps<Empty>| d0.storage.view() == d.storage.view() && d0.querier.snap() == d.querier.snap() ==> #[trigger] raw_fn.requires((d0, env, msg))) ==> #[trigger] r.requires((d, env, msg))
+//@   ensures [C17.query_fn.sem] forall|d: Deps<Q>, env: Env, msg: T, o: Result<Binary, E>| #[trigger] r.ensures((d, env, msg), o) ==> query_lifted::<T, E, Q, F>(raw_fn, d, env, msg, o)
+//@ end
